@@ -417,8 +417,12 @@ func runC15(r *Run) {
 			if f.Signature.Recv() == nil || !strings.HasSuffix(f.Signature.Recv().Type().String(), "session.Session") {
 				return
 			}
-			if f.Name() == "Destroy" || f.Name() == "Release" || strings.HasPrefix(f.Name(), "release") {
-				return // the session does not live on
+			// the session lives on when the method gives it a new id; a wipe on the way to the pool or to destruction does not
+			issuesNewID := len(callsMatching(f, false, func(n string) bool {
+				return strings.HasSuffix(n, "session.Session).refresh") || n == "field:session.Config.KeyGenerator"
+			})) > 0
+			if !issuesNewID {
+				return
 			}
 			for _, w := range callsMatching(f, false, nameHasSuffix("session.data).Reset")) {
 				n++
